@@ -554,6 +554,18 @@ func c03Header(c *Ctx, w *prove.World) {
 	} else if why := codec.NewExt(w, m).Incomplete(); why != "" {
 		opaque = why
 	} else {
+		// an integer that is not a plain field load (h.GetPID()>>16, a helper's result):
+		// resolved by bit lanes — exactly the bits of ONE field, in order, is that field;
+		// bits of several fields or of the wrong one stay as they are and are compared
+		for i := range enc {
+			if enc[i].Kind == "fixed" && enc[i].Field == "" && enc[i].Val != nil {
+				if f := c03FieldByLanes(p, m, enc[i].Val, enc[i].Width*8); f != "" {
+					enc[i].Field, enc[i].Expr = f, ""
+				} else if f == "" && c03LanesKnown(p, m, enc[i].Val, enc[i].Width*8) {
+					enc[i].Field = "bits of other fields: " + enc[i].Expr
+				}
+			}
+		}
 		// bytes produced by something that is not a field of the receiver (a library
 		// encoder fed a local struct, a helper): the layout is not read off Marshal
 		for _, a := range enc {
@@ -1366,4 +1378,75 @@ func valueOf(in ssa.Instruction) ssa.Value {
 		return v
 	}
 	return nil
+}
+
+// c03HeaderLanes: bit provenance of an integer computed in Header.Marshal in
+// terms of the receiver's integer fields (field index = source id), entering
+// in-module helpers such as GetPID.
+func c03HeaderLanes(p *load.Program, m *ssa.Function, v ssa.Value) (lanes.Vec, *types.Struct) {
+	st, _ := derefType(m.Params[0].Type()).Underlying().(*types.Struct)
+	if st == nil {
+		return nil, nil
+	}
+	an := &lanes.Analyzer{InModule: p.InModule}
+	an.Leaf = func(f *lanes.Frame, x ssa.Value) (lanes.Vec, bool) {
+		ld, ok := x.(*ssa.UnOp)
+		if !ok || ld.Op != token.MUL {
+			return nil, false
+		}
+		fa, ok := ld.X.(*ssa.FieldAddr)
+		if !ok {
+			return nil, false
+		}
+		if s2, ok := derefType(fa.X.Type()).Underlying().(*types.Struct); !ok || !types.Identical(s2, st) {
+			return nil, false
+		}
+		w, _, isInt := lanes.IntWidth(ld.Type())
+		if !isInt {
+			return nil, false
+		}
+		return srcVec(fa.Field+1, w), true
+	}
+	return an.Root(m).Lanes(v), st
+}
+
+// c03FieldByLanes: the low `bits` bits of v are exactly bits 0..bits-1 of one field; its name.
+func c03FieldByLanes(p *load.Program, m *ssa.Function, v ssa.Value, bits int) string {
+	vec, st := c03HeaderLanes(p, m, v)
+	if st == nil || len(vec) < bits {
+		return ""
+	}
+	src := -1
+	for b := 0; b < bits; b++ {
+		bit := vec[b]
+		if bit.K != lanes.Src || bit.B != b {
+			return ""
+		}
+		if src == -1 {
+			src = bit.S
+		} else if src != bit.S {
+			return ""
+		}
+	}
+	if src < 1 || src-1 >= st.NumFields() {
+		return ""
+	}
+	if w, _, ok := lanes.IntWidth(st.Field(src - 1).Type()); !ok || w != bits {
+		return ""
+	}
+	return st.Field(src - 1).Name()
+}
+
+// c03LanesKnown: every one of the low `bits` bits of v is a known bit of some field or a constant.
+func c03LanesKnown(p *load.Program, m *ssa.Function, v ssa.Value, bits int) bool {
+	vec, st := c03HeaderLanes(p, m, v)
+	if st == nil || len(vec) < bits {
+		return false
+	}
+	for b := 0; b < bits; b++ {
+		if vec[b].K != lanes.Src && vec[b].K != lanes.Zero && vec[b].K != lanes.One {
+			return false
+		}
+	}
+	return true
 }
